@@ -385,3 +385,28 @@ struct LabelReferences {
     declaration: Option<TextRange>,
     references: Vec<TextRange>,
 }
+
+#[cfg(feature = "verif-hooks")]
+impl LuaReferenceIndex {
+    /// verif hook H1: entry counts of every map of this index
+    pub fn verif_sizes(&self, out: &mut Vec<(String, usize)>) {
+        out.push(("reference.file_references".into(), self.file_references.len()));
+        out.push(("reference.index_reference".into(), self.index_reference.len()));
+        out.push((
+            "reference.index_reference.sum".into(),
+            self.index_reference.values().map(|m| m.len()).sum(),
+        ));
+        out.push(("reference.global_references".into(), self.global_references.len()));
+        out.push((
+            "reference.global_references.sum".into(),
+            self.global_references.values().map(|m| m.len()).sum(),
+        ));
+        out.push(("reference.string_references".into(), self.string_references.len()));
+        out.push(("reference.type_references".into(), self.type_references.len()));
+        out.push((
+            "reference.type_references.sum".into(),
+            self.type_references.values().map(|m| m.len()).sum(),
+        ));
+        out.push(("reference.label_references".into(), self.label_references.len()));
+    }
+}
